@@ -387,3 +387,6 @@ def decide_inconclusive(obs, results, cases):
     if obs.get('operations', 0) == 0 or obs.get('raising_operations', 0) == 0 or obs.get('managed_mutations', 0) == 0 or obs.get('ops_via_agents', 0) == 0:
         return 'no operation / raising operation / managed mutation / agent call was observed'
     return None
+
+
+RULE = RULE + '; str() and list iteration through proxies; the same hosted list handed out twice, the newer proxy dropped'
